@@ -6,6 +6,7 @@
 import GoatModel.World
 import GoatModel.Load
 import GoatModel.App
+import GoatModel.Genesis
 namespace Goat.Driver
 open Goat.Wire Goat.World
 
@@ -197,7 +198,10 @@ def step (d : D) (o : Op) : D × String :=
     (d, s!"=> goat head={toHex d.goat.head.blockHash}|{d.goat.head.blockNumber}|{toHex d.goat.head.parentHash} beacon={toHex d.goat.beaconRoot}")
   | "a.blockstart" => ({ d with snap := some (d.w, d.goat), halting := o.str "halt" == "1", failed := none }, "=> ok")
   | "a.det" => (d, "=> ok")
-  | "a.export" => (d, "=> ok")
+  | "a.export" =>
+    -- does the locking + relayer state survive export → import (GoatModel.Genesis)?  Compared with the real
+    -- application's verdict whenever that could be observed (`lrobs=1`)
+    (d, if o.str "lrobs" == "1" then s!"=> ok lr={if Genesis.roundTripOk d.w.lock d.w.rel then 1 else 0}" else "=> ok lr=-")
   | "a.process" => (d, "=> " ++ res (processProposal d o))
   | "a.checktx" =>
     -- CheckTx runs the ante chain only
